@@ -6,6 +6,8 @@
 
 package agent
 
+//@ import "log"
+
 // ---------------------------------------------------------------- RPC gate: handshake and authentication (C24)
 
 // replies written to the client connection: ghost log "ipcsent" (sequence number) / "ipcsenterr" (error string)
@@ -454,6 +456,58 @@ package agent
 //@       callRecvOf[*logStream]("handlelog", k) != callRecvOf[*logStream]("handlelog", k2) })
 //@   loop 1 invariant visited_got_it [C29]: forall(func(h LogHandler) bool { return visited(l.handlers, h) ==>
 //@       exists(func(k int) bool { return c0 <= k && k < callNOf("handlelog") && callRecvOf[*logStream]("handlelog", k) == asLogStream(h) }) })
+//@ end
+
+// ---------------------------------------------------------------- which handler scripts run for an event (C27, first sentence)
+
+
+//@ deterministic Event.EventType
+
+// running a script (process, environment, stdin) is outside the verified code; its calls are logged
+//@ func invokeEventScript(logger *log.Logger, script string, self serf.Member, event serf.Event) (err error)
+//@   trusted
+//@   logcalls script
+//@   assigns
+//@ end
+
+// a filter matches: "*" matches everything; otherwise the event's kind name must be the filter's, and a user:NAME or
+// query:NAME filter additionally requires that name
+//@ pure func filterMatches(f EventFilter, e serf.Event) bool {
+//@   if f.Event == "*" { return true }
+//@   if e.EventType().String() != f.Event { return false }
+//@   if f.Event == "user" && f.Name != "" {
+//@     u, ok := e.(serf.UserEvent)
+//@     if !ok || u.Name != f.Name { return false }
+//@   }
+//@   if f.Event == "query" && f.Name != "" {
+//@     q, ok := e.(*serf.Query)
+//@     if !ok || q.Name != f.Name { return false }
+//@   }
+//@   return true
+//@ }
+// events carrying a query carry a query (Serf never hands out a nil one)
+//@ pure func wfEvent(e serf.Event) bool { q, ok := e.(*serf.Query); return e != nil && (ok ==> q != nil) }
+//@ func (s *EventFilter) Invoke(e serf.Event) (ok bool)
+//@   requires receiver: s != nil && wfEvent(e)
+//@   ensures exactly_when_filter_matches [C27]: ok == filterMatches(*s, e)
+//@ end
+
+// the scripts run for an event are exactly those whose filter matches it, in configuration order, once each
+//@ pure func scriptMatches(sc EventScript, e serf.Event) bool { return filterMatches(sc.EventFilter, e) }
+//@ func (h *ScriptEventHandler) HandleEvent(e serf.Event)
+//@   requires wf: h != nil && wfEvent(e) && h.SelfFunc != nil
+//@   oldlet c0 := callNOf("script")
+//@   oldlet scripts := ite(h.newScripts != nil, h.newScripts, h.Scripts)
+//@   ensures scripts_in_effect [C27]: sameSlice(h.Scripts, scripts)
+//@   ensures as_many_runs_as_matching_filters [C27]: callNOf("script") == c0 + countIn(scripts, 0, len(scripts), func(sc EventScript) bool { return scriptMatches(sc, e) })
+//@   ensures matching_scripts_run_in_order [C27]: forall(func(i int) bool { return 0 <= i && i < len(scripts) && scriptMatches(scripts[i], e) ==>
+//@       callStrOf("script", c0 + countIn(scripts, 0, i, func(sc EventScript) bool { return scriptMatches(sc, e) })) == scripts[i].Script })
+//@   loop 1 vars ri=rangeindex int
+//@   loop 1 invariant progress [C27]: -1 <= ri && ri < len(scripts) && sameSlice(h.Scripts, scripts) &&
+//@       callNOf("script") == c0 + countIn(scripts, 0, ri+1, func(sc EventScript) bool { return scriptMatches(sc, e) })
+//@   loop 1 invariant ran_so_far [C27]: forall(func(i int) bool { return 0 <= i && i <= ri && scriptMatches(scripts[i], e) ==>
+//@       callStrOf("script", c0 + countIn(scripts, 0, i, func(sc EventScript) bool { return scriptMatches(sc, e) })) == scripts[i].Script &&
+//@       countIn(scripts, 0, i+1, func(sc EventScript) bool { return scriptMatches(sc, e) }) == countIn(scripts, 0, i, func(sc EventScript) bool { return scriptMatches(sc, e) })+1 })
 //@ end
 
 // END-OF-CONTRACTS
